@@ -647,6 +647,32 @@ def cfg_corpus(tier: str, seed: int):
             cfg.feats["iter"] = dict(cfg.feats["iter"], struct_name=a)
             cfg.feats["names"] = dict(cfg.feats["names"], struct_name=b)
             add(d, cfg, "prelude_names")
+        # enums which are not `pub` x every documented vis value on every item, also wider than the enum's own
+        # (round 5, V10b: the iterator struct was widened to range's visibility -> E0446 on a pub(crate) enum).  Only
+        # `iter(vis = ..)` wider than the enum is left out: rustc itself forbids that struct (`type Item = E`).
+        if d.shape in ("cfg_gapless_small", "cfg_holes_large", "cfg_holes_small") or tier != "quick":
+            import dataclasses
+            rank = {"": 0, "pub(crate)": 1, "pub": 2}
+            for ei, ev in enumerate(("pub(crate)", "")):
+                d2 = dataclasses.replace(d, vis=ev)
+                for fi, f in enumerate(FN_FEATURES + ITER_FEATURES):
+                    for vi, v in enumerate(("", "pub(crate)", "pub")):
+                        if f == "iter" and rank[v] > rank[ev]:
+                            continue
+                        if tier == "quick" and rank[v] <= rank[ev] and (fi + vi + ei + di) % 3:
+                            continue
+                        t = tuples[(fi * 3 + vi + di + ei) % len(tuples)]
+                        small = (fi + vi) % 2 == 0
+                        if small and f in ("range", "iter"):
+                            cfg = legalize(Config({"iter": {"mode": t["iter"]} if t.get("iter", "auto") != "auto" else {}, "range": {}}), d2)
+                        elif small:
+                            cfg = legalize(Config({f: {}}), d2)
+                        else:
+                            cfg = legalize(cfg_all(t), d2)
+                        if f not in cfg.feats:
+                            continue
+                        cfg.feats[f] = dict(cfg.feats[f], vis=v)
+                        add(d2, cfg, "enum_vis", nested=True)
         # split versus joined: the same configuration in one attribute and spread over several
         for k in range(4 if tier == "quick" else 16):
             t = tuples[rng.randrange(len(tuples))]
